@@ -198,7 +198,7 @@ def check(rep, tier, seed, specs=None, n_override=None):
                             i += 1
             for j in range(3000):
                 n = rng.randint(2, 9)
-                specs.append({'n_tx': n, 'skip': rng.sample(range(n), rng.randint(0, 3)), 'layouts': 4, 'index_ref': j % 2 == 0,
+                specs.append({'n_tx': n, 'skip': rng.sample(range(n), rng.randint(0, min(3, n - 1))), 'layouts': 4, 'index_ref': j % 2 == 0,
                               'hashseeds': [1, 2, 'random'] if j % 5 == 0 else [], 'seed': common.hash64('c06-l', seed, j)})
     results, lost = common.shard_run('c06', specs, timeout_s=1800 if quick else 8 * 3600)
     rep.rule = ('inputs with 2-9 transcripts in annotation order of which a chosen subset is skipped by the dispatcher (only an intronic record) at '
